@@ -69,9 +69,9 @@ Finished == l <= Len(Rec) \/ JsonSerialize(IOEnv.OUT, [lines |-> Len(Rec), res |
 
 \* ---- constant values
 A_quiet(addr) == [addr |-> addr, rt |-> 1000, dis |-> FALSE, integ |-> FALSE, en |-> FALSE, tsync |-> "",
-                  rmin |-> 1000, rmax |-> 4000, ka |-> -1, ovfInteg |-> FALSE, evscan |-> FALSE, maxq |-> 2]
+                  rmin |-> 1000, rmax |-> 4000, ka |-> -1, ovfInteg |-> FALSE, evscan |-> FALSE, maxq |-> 2, clock |-> TRUE]
 A_full(addr) == [addr |-> addr, rt |-> 1000, dis |-> TRUE, integ |-> TRUE, en |-> TRUE, tsync |-> "",
-                 rmin |-> 1000, rmax |-> 4000, ka |-> -1, ovfInteg |-> TRUE, evscan |-> FALSE, maxq |-> 2]
+                 rmin |-> 1000, rmax |-> 4000, ka |-> -1, ovfInteg |-> TRUE, evscan |-> FALSE, maxq |-> 2, clock |-> TRUE]
 A_ka(addr) == [A_quiet(addr) EXCEPT !.ka = 3000]
 Cfg_quiet1 == <<A_quiet(1024)>>
 Cfg_full1 == <<A_full(1024)>>
@@ -80,6 +80,8 @@ Cfg_ka2 == <<A_ka(1024), A_quiet(1025)>>
 Cfg_quiet3 == <<A_quiet(1024), A_quiet(1025), A_quiet(1026)>>
 Cfg_tsync1 == <<[A_full(1024) EXCEPT !.tsync = "nonlan"]>>
 Cfg_tlan1 == <<[A_full(1024) EXCEPT !.tsync = "lan"]>>
+Cfg_noclock1 == <<[A_quiet(1024) EXCEPT !.clock = FALSE]>>
+Cfg_tnoclock1 == <<[A_full(1024) EXCEPT !.tsync = "nonlan", !.clock = FALSE]>>
 DEVM_none == {}
 DEVM_d9 == {"NoConfirmForNonRead"}
 =============================================================================
